@@ -19,7 +19,7 @@ func init() {
 			"oracle: byte equality of every output with the first one of its kind; the number of distinct internal iteration orders actually seen (order of the returned []Peer slice) is measured per input; " +
 			"non-trivial = at least 3 workload peers, a non-empty report, and more than one distinct iteration order observed; distinct = world hash",
 		Assumptions:       []string{"values inside one selector and ports inside one rule are not permuted (the statement names documents, files, rules and peers)", "each semantic selector has one spelling per world except in the committed witness of finding C08-selector-spelling"},
-		NumCases:          func(tier string, _ int64) int { return tierN(tier, 76, 3070) },
+		NumCases:          func(tier string, _ int64) int { return tierN(tier, 76, 470) },
 		Run:               runC08,
 		MinNonTrivial:     25,
 		MinEffectiveShare: 0.5,
@@ -85,7 +85,11 @@ func c08World(g *rng.R, fam int) (*world.World, string) {
 	switch fam {
 	case 0:
 		cfg.MinNetPols, cfg.MaxNetPols = 2, 6
-		return world.GenNPWorld(g, cfg), "np"
+		w := world.GenNPWorld(g, cfg)
+		if g.P(0.5) {
+			world.AddCanonStress(g, w)
+		}
+		return w, "np"
 	case 1:
 		return world.GenPrecedenceWorld(g, cfg), "anp"
 	case 2:
